@@ -603,7 +603,9 @@ func (a *sideEffectActor) hasInboxForwardingValues(c context.Context, inboxIRI *
 		}
 		var m map[string]interface{}
 		if err = json.Unmarshal(b, &m); err != nil {
-			return false, err
+			// Do not fail the entire process if the peer serves
+			// something that is not a JSON object.
+			continue
 		}
 		t, err := streams.ToType(c, m)
 		if err != nil {
